@@ -49,10 +49,18 @@
 (*     value 0 (F) everywhere else.  Equality at a function type is EXTENSIONAL equality: exact between two    *)
 (*     such variables (equal tables) and over 'a (all points); between lambda terms / partial applications     *)
 (*     over a number type a differing sample point refutes it, agreement on the sample points decides nothing. *)
-(*   * anything else (transcendental functions, functions of two arguments, ...) evaluates to "N".             *)
+(*   * sqrt is HOL's sign-preserving root (library/real.json: sqrt x = SOME y. real_sgn y = real_sgn x /\     *)
+(*     y ^ 2 = abs x; sqrt (-x) = -(sqrt x)): exact on squares of rationals.                                   *)
+(*   * SIGNS.  A real term without an exact value (exp, log, sqrt of a non-square, ...) still has a set of      *)
+(*     possible signs: exp t is positive (real_exp_pos_lt), abs t is not negative, sqrt t has the sign of t,    *)
+(*     t * t and even powers are not negative, log / sin / cos can be anything; sums, products, quotients       *)
+(*     (x / y = x * inverse y, inverse keeps the sign, inverse 0 = 0) follow the sign rules.  An order or        *)
+(*     equality atom whose sides have no exact value is decided when the signs alone decide it                  *)
+(*     (exp (log x) = x is false at x = -1: positive against negative), otherwise it is "N".                     *)
+(*   * anything else (functions of two arguments, ...) evaluates to "N".                                        *)
 (*   * goals whose estimated number of atom evaluations exceeds CostBudget are not examined (Outcomes = {"N"}). *)
 (* Refuted(goal | prems): some assignment of the free variables (nat 0..n, int -n..n, real on RealGrid,       *)
-(* bool, 'a in carriers of size 1 and 2, predicates / sets / functions over 'a: all of them) makes every      *)
+(* bool, 'a in carriers of size 1 and 2, real also on the values of the closed real sub-terms of the goal, predicates / sets / functions over 'a: all of them) makes every      *)
 (* premise "T" and the goal "F".  Free variables are universally quantified, so such an assignment is a       *)
 (* genuine counterexample in HOL.                                                                              *)
 EXTENDS Integers, Sequences, FiniteSets, TLC, Rat
@@ -151,7 +159,7 @@ TabRng(B, P) == IF B = "'a" THEN { <<i, 1>> : i \in 1..P.k } ELSE { <<0, 1>>, <<
 AppVal(fv, B, a) == IF a \in DOMAIN fv THEN fv[a] ELSE DefaultOf(B)
 VDom(T, P) == CASE T = "nat" -> { <<i, 1>> : i \in 0..P.n }
                 [] T = "int" -> { <<i, 1>> : i \in (-P.n)..P.n }
-                [] T = "real" -> RealGrid
+                [] T = "real" -> P.rg
                 [] T = "bool" -> {FF, TT}
                 [] T = "'a" -> Carrier(P.k)
                 [] T \in FunT -> LET sg == SigOf(T) IN [TabDom(sg[2], P) -> TabRng(sg[3], P)]
@@ -186,7 +194,7 @@ QD(T, tq0, be, P) ==
             [dom |-> { <<i, 1>> : i \in lo2..hi } \cup fin, complete |-> TRUE]
        ELSE [dom |-> fin, complete |-> FALSE]
   ELSE IF T \in {"bool", "'a"} THEN [dom |-> VDom(T, P), complete |-> TRUE]
-  ELSE IF T = "real" THEN [dom |-> RealGrid, complete |-> FALSE]
+  ELSE IF T = "real" THEN [dom |-> P.rg, complete |-> FALSE]
   ELSE [dom |-> {}, complete |-> FALSE]
 
 \* ---------------------------------------------------------------- the meaning
@@ -208,7 +216,44 @@ Lift(t, c) == IF t[1] = "bound" THEN (IF t[4] >= c THEN <<t[1], t[2], t[3], t[4]
                    ELSE IF Len(t[5]) = 2 THEN <<t[1], t[2], t[3], t[4], <<Lift(t[5][1], c2), Lift(t[5][2], c2)>>>>
                    ELSE IF Len(t[5]) = 3 THEN <<t[1], t[2], t[3], t[4], <<Lift(t[5][1], c2), Lift(t[5][2], c2), Lift(t[5][3], c2)>>>>
                    ELSE <<"other", "", "?", 0, <<>>>>
-RECURSIVE Val(_, _, _, _), Ev(_, _, _, _), ApplyF(_, _, _, _, _, _)
+\* ---- signs: sets of possible signs (-1, 0, 1) of numeric terms
+SgAll == {-1, 0, 1}
+SgMul(A, B) == { x * y : x \in A, y \in B }
+SgAdd(A, B) == UNION { IF x = y THEN {x} ELSE IF x = 0 THEN {y} ELSE IF y = 0 THEN {x} ELSE SgAll : x \in A, y \in B }
+SgNeg(A) == { -x : x \in A }
+\* truth of  a R b  when only the sign sets A of a and B of b are known
+SgRel(r, A, B) ==
+  LET C == { IF x < y THEN -1 ELSE IF x > y THEN 1 ELSE IF x = 0 THEN 0 ELSE 2 : x \in A, y \in B } IN
+  CASE r = "less" -> IF C = {-1} THEN "T" ELSE IF C \subseteq {0, 1} THEN "F" ELSE "N"
+    [] r = "less_eq" -> IF C \subseteq {-1, 0} THEN "T" ELSE IF C = {1} THEN "F" ELSE "N"
+    [] r = "greater" -> IF C = {1} THEN "T" ELSE IF C \subseteq {-1, 0} THEN "F" ELSE "N"
+    [] r = "greater_eq" -> IF C \subseteq {0, 1} THEN "T" ELSE IF C = {-1} THEN "F" ELSE "N"
+    [] r = "equals" -> IF C = {0} THEN "T" ELSE IF C \subseteq {-1, 1} THEN "F" ELSE "N"
+    [] OTHER -> "N"
+RECURSIVE Val(_, _, _, _), Ev(_, _, _, _), ApplyF(_, _, _, _, _, _), Sg(_, _, _, _)
+Sg(t, va, be, P) ==
+  LET v == Val(t, va, be, P)  nm == t[2]  as == t[5]  na == Len(t[5])  T == t[3] IN
+  IF ~RIsOvf(v) THEN (IF T \in NumT /\ t[1] # "lam" /\ ~IsQ(t) THEN {RSgn(v[1])} ELSE SgAll)
+  ELSE IF t[1] # "op" \/ T \notin NumT THEN (IF T = "nat" THEN {0, 1} ELSE SgAll)
+  ELSE LET base ==
+         CASE nm = "exp" /\ na = 1 -> {1}
+           [] nm = "pi" /\ na = 0 -> {1}
+           [] nm = "abs" /\ na = 1 -> { x * x : x \in Sg(as[1], va, be, P) }
+           [] nm = "sqrt" /\ na = 1 -> Sg(as[1], va, be, P)
+           [] nm = "uminus" /\ na = 1 -> SgNeg(Sg(as[1], va, be, P))
+           [] nm = "times" /\ na = 2 -> IF as[1] = as[2] THEN { x * x : x \in Sg(as[1], va, be, P) }
+                                         ELSE SgMul(Sg(as[1], va, be, P), Sg(as[2], va, be, P))
+           [] nm = "real_divide" /\ na = 2 /\ T = "real" -> SgMul(Sg(as[1], va, be, P), Sg(as[2], va, be, P))
+           [] nm = "real_inverse" /\ na = 1 -> Sg(as[1], va, be, P)
+           [] nm = "plus" /\ na = 2 -> SgAdd(Sg(as[1], va, be, P), Sg(as[2], va, be, P))
+           [] nm = "minus" /\ na = 2 /\ T # "nat" -> SgAdd(Sg(as[1], va, be, P), SgNeg(Sg(as[2], va, be, P)))
+           [] nm = "power" /\ na = 2 /\ as[2][1] = "num" /\ as[2][3] = "nat" ->
+                IF as[2][4] = 0 THEN {1} ELSE IF as[2][4] % 2 = 0 THEN { x * x : x \in Sg(as[1], va, be, P) } ELSE Sg(as[1], va, be, P)
+           [] nm \in {"min", "max"} /\ na = 2 -> Sg(as[1], va, be, P) \cup Sg(as[2], va, be, P)
+           [] nm = "of_nat" /\ na = 1 -> Sg(as[1], va, be, P)
+           [] nm = "of_int" /\ na = 1 -> Sg(as[1], va, be, P)
+           [] OTHER -> SgAll IN
+       IF T = "nat" THEN (IF base \cap {0, 1} = {} THEN {0, 1} ELSE base \cap {0, 1}) ELSE IF base = {} THEN SgAll ELSE base
 \* value of the function-typed term t :: FT applied to the point d
 ApplyF(t, FT, d, va, be, P) ==
   LET sg == SigOf(FT)  A == sg[2]  B == sg[3]  n == Len(t[5])  arg == <<"bound", "", A, 0, <<>>>>
@@ -243,6 +288,9 @@ Val(t, va, be, P) ==
                  IF c = 2 THEN NAV ELSE IF nm = "max" THEN (IF c = -1 THEN a2 ELSE a1) ELSE (IF c = 1 THEN a2 ELSE a1)
             [] nm = "of_nat" /\ na = 1 /\ T \in {"int", "real"} /\ as[1][3] = "nat" -> a1
             [] nm = "of_int" /\ na = 1 /\ T = "real" /\ as[1][3] = "int" -> a1
+            [] nm = "sqrt" /\ na = 1 /\ T = "real" ->
+                 IF RIsOvf(a1) THEN NAV
+                 ELSE IF RIsSquare(RAbs(a1[1])) /\ RIsSquare(a1[2]) THEN <<RSgn(a1[1]) * RISqrt(RAbs(a1[1])), RISqrt(a1[2])>> ELSE NAV
             [] nm = "power" /\ na = 2 /\ T \in NumT /\ as[2][3] = "nat" ->
                  IF RIsOvf(a2) \/ a2[2] # 1 \/ a2[1] < 0 THEN NAV ELSE Fit(T, RPow(a1, a2[1]))
             [] nm = "IF" /\ na = 3 ->
@@ -272,7 +320,9 @@ Ev(f, va, be, P) ==
                  IF IsBoolNode(as[1]) THEN Iff3(Ev(as[1], va, be, P), Ev(as[2], va, be, P))
                  ELSE IF as[1][1] # "lam" /\ as[1][3] \in FirstOrderT
                  THEN LET a == Val(as[1], va, be, P)  b == Val(as[2], va, be, P) IN
-                      IF RIsOvf(a) \/ RIsOvf(b) THEN "N" ELSE IF a = b THEN "T" ELSE "F"
+                      IF RIsOvf(a) \/ RIsOvf(b)
+                      THEN (IF as[1][3] \in NumT THEN SgRel("equals", Sg(as[1], va, be, P), Sg(as[2], va, be, P)) ELSE "N")
+                      ELSE IF a = b THEN "T" ELSE "F"
                  ELSE IF NodeType(as[1]) \in FunT /\ NodeType(as[2]) = NodeType(as[1])
                  THEN LET FT == NodeType(as[1])  A == SigOf(FT)[2]  a == as[1]  b == as[2] IN
                       IF a[1] = "var" /\ b[1] = "var"
@@ -285,7 +335,7 @@ Ev(f, va, be, P) ==
             [] nm \in {"less", "less_eq", "greater", "greater_eq"} /\ na = 2 ->
                  IF as[1][3] \notin NumT THEN "N"
                  ELSE LET c == RCmp(Val(as[1], va, be, P), Val(as[2], va, be, P)) IN
-                      IF c = 2 THEN "N"
+                      IF c = 2 THEN SgRel(nm, Sg(as[1], va, be, P), Sg(as[2], va, be, P))
                       ELSE IF (CASE nm = "less" -> c = -1 [] nm = "less_eq" -> c # 1 [] nm = "greater" -> c = 1 [] OTHER -> c # -1)
                            THEN "T" ELSE "F"
             [] nm = "member" /\ na = 2 ->
@@ -346,6 +396,16 @@ NoVA == ("!" :> FF)                      \* the empty assignment (a string-keyed
 UsesTyVar(goal, prems) == \E T \in TypesIn(goal) \cup UNION { TypesIn(prems[i]) : i \in 1..Len(prems) } :
                              T = "'a" \/ (T \in FunT /\ (SigOf(T)[2] = "'a" \/ SigOf(T)[3] = "'a"))
 \* the set of truth values of  prems |- goal  over all assignments (carriers of size 1 and 2 for 'a)
+\* ---- the real grid of a goal: RealGrid and the values of the closed real sub-terms the goal itself names
+RECURSIVE IsClosedNum(_), ClosedReals(_)
+IsClosedNum(t) == t[1] = "num" \/ (t[1] = "op" /\ t[3] \in NumT /\ t[2] \in {"plus", "minus", "times", "uminus", "real_divide", "of_nat", "of_int"}
+                                   /\ \A i \in 1..Len(t[5]) : IsClosedNum(t[5][i]))
+ClosedReals(t) == IF t[3] = "real" /\ t[1] \in {"num", "op"} /\ IsClosedNum(t)
+                  THEN LET v == Val(t, NoVA, <<>>, [n |-> 0, w |-> 1, k |-> 1, iv |-> {}, rg |-> {}]) IN IF RIsOvf(v) THEN {} ELSE {v}
+                  ELSE UNION { ClosedReals(t[5][i]) : i \in 1..Len(t[5]) }
+GridFor(goal, prems) == LET X == ClosedReals(goal) \cup UNION { ClosedReals(prems[i]) : i \in 1..Len(prems) }
+                            Y == X \ RealGrid IN
+                        IF Cardinality(Y) <= 6 THEN RealGrid \cup Y ELSE RealGrid
 \* ---- size guard: an estimate of the number of atom evaluations (saturating); goals beyond the budget are not examined
 CostCap == 1000000
 CostBudget == 150000
@@ -357,7 +417,7 @@ CostF(t, span, n) ==
   IF IsQ(t) /\ Len(t[5]) = 1
   THEN LET T == t[3]
            d == IF T \in IntT THEN (IF t[4] > 0 THEN span + 2 * t[4] ELSE 2 * n + 1)
-                ELSE IF T = "real" THEN Cardinality(RealGrid) ELSE 2
+                ELSE IF T = "real" THEN Cardinality(RealGrid) + 6 ELSE 2
            sp == IF T \in IntT /\ t[4] > 0 THEN span + 2 * t[4] ELSE span IN
        SatMul(d, CostF(t[5][1], IF sp > 400 THEN 400 ELSE sp, n))
   ELSE IF Len(t[5]) = 0 THEN 1
@@ -368,7 +428,7 @@ CostF(t, span, n) ==
 EnvCount(vs, i, n) == IF i > Len(vs) THEN 1
                       ELSE LET T == vs[i][2]
                                d == IF T = "nat" THEN n + 1 ELSE IF T = "int" THEN 2 * n + 1
-                                    ELSE IF T = "real" THEN Cardinality(RealGrid) ELSE IF T \in {"bool", "'a"} THEN 2 ELSE 4 IN
+                                    ELSE IF T = "real" THEN Cardinality(RealGrid) + 6 ELSE IF T \in {"bool", "'a"} THEN 2 ELSE 4 IN
                            SatMul(d, EnvCount(vs, i + 1, n))
 Outcomes(goal0, prems0, n, w) ==
   LET goal == Prep(goal0)
@@ -383,6 +443,7 @@ Outcomes(goal0, prems0, n, w) ==
                                                ELSE SatAdd(CostF(prems[1], 2 * n + 1, n), CostF(prems[2], 2 * n + 1, n)))
       cost == SatMul(SatMul(EnvCount(vs, 1, n), Cardinality(ks)), SatMul(fc, w)) IN
   IF cost > CostBudget * w THEN {"N"}
-  ELSE UNION { OutRec(goal, prems, vs, 1, NoVA, [n |-> n, w |-> w, k |-> k, iv |-> {}]) : k \in ks }
+  ELSE LET rg == GridFor(goal, prems) IN
+       UNION { OutRec(goal, prems, vs, 1, NoVA, [n |-> n, w |-> w, k |-> k, iv |-> {}, rg |-> rg]) : k \in ks }
 Refuted(goal, prems, n) == "F" \in Outcomes(goal, prems, n, 1)
 =============================================================================
